@@ -59,13 +59,32 @@ func (s *genState) flush() {
 	switch x := s.g.Intn(100); {
 	case s.faults && x < 25:
 		o.F, o.S = "append", s.slack()
-	case x < 32:
-		o.F = "wm"
-	case x < 40:
-		o.F = lib.Pick(s.g, []string{"create", "create", "wmsync", "rotate", "unlink:0"})
+	case s.faults && x < 45:
+		o.F = lib.Pick(s.g, []string{"fsync", "fsync", "prewrite", "norepair"})
+		if o.F == "norepair" {
+			o.S = lib.Pick(s.g, []int{1, 6, 7, 11, 20, 30})
+		}
+	case x < 52:
+		o.F = "create"
 	}
 	s.emit(o)
-	if o.F != "append" {
+	if o.F == "norepair" {
+		// the writer is blocked until the process is restarted: do that soon
+		for i := s.g.Intn(3); i > 0; i-- {
+			s.set(s.setHeight())
+		}
+		if s.g.Bool() {
+			s.emit(Op{K: "flush"})
+		}
+		if s.g.Bool() {
+			s.emit(Op{K: "close"})
+			s.closed = true
+		} else {
+			s.crash("idle")
+		}
+		return
+	}
+	if o.F == "" || o.F == "create" {
 		// a "create" failure leaves the batch pending when no writer is open; the guess of the
 		// cleanup counter may then be one flush early, which only matters to the generator
 		s.committed(o.F)
@@ -97,7 +116,7 @@ func (s *genState) crash(c string) {
 		case s.faults && x < 20:
 			o.F, o.S = "append", s.slack()
 		case x < 30:
-			o.F = "wm"
+			o.F = "create"
 		}
 	}
 	s.emit(o)
@@ -182,7 +201,7 @@ func (s *genState) randomOp() {
 	case x < 78:
 		s.flush()
 	case x < 83:
-		s.emit(Op{K: "close", F: lib.Pick(s.g, []string{"", "", "", "wm"})})
+		s.emit(Op{K: "close", F: lib.Pick(s.g, []string{"", "", "closewriter", "closewriter-norepair", "fsync", "create"})})
 		s.committed("")
 		s.closed = true
 	case x < 95:
@@ -320,7 +339,16 @@ func fixedHistories() []fixed {
 		big = append(big, o("set", uint64(4+i%2), 2000+i))
 	}
 	big = append(big, Op{K: "crash", C: "flush", I: 3, T: &tailVariant{Kind: "cut", Off: 32768 - 11}}, Op{K: "open"}, o("set", 9, 5000), Op{K: "flush"})
+	const (
+		h32 = uint64(1) << 32
+		h63 = uint64(1) << 63
+		hmx = ^uint64(0)
+	)
 	return []fixed{
+		// heights at the edges of uint32 / int64 / uint64; pruning up to MaxUint64 kills everything for ever
+		{"fixed-extreme-heights", []Op{{K: "open"}, o("set", h32-1, 3), o("set", h32, 4), o("set", h63-1, 7), o("set", h63, 14), o("set", hmx, 18),
+			{K: "flush"}, o("del", h32, 0), {K: "flush"}, {K: "crash", C: "flush", I: 4}, {K: "open"}, o("set", h63, 25), o("del", h63-1, 0), {K: "close"}, {K: "open"},
+			o("del", hmx, 0), o("set", hmx, 29), {K: "flush"}, {K: "close"}, {K: "open"}, o("set", 5, 33), o("set", hmx, 36), {K: "flush"}, {K: "crash", C: "idle"}, {K: "open"}}},
 		{"fixed-bigbatch", big},
 		{"fixed-basic", []Op{{K: "open"}, o("set", 1, 1), o("set", 1, 2), o("set", 2, 3), {K: "flush"}, o("set", 2, 4), o("del", 1, 0),
 			{K: "flush"}, o("set", 3, 5), {K: "close"}, {K: "open"}, o("set", 3, 6), {K: "flush"}, {K: "crash", C: "idle"}, {K: "open"}}},
@@ -331,4 +359,94 @@ func fixedHistories() []fixed {
 		{"fixed-height0", []Op{{K: "open"}, o("set", 0, 1), o("set", 1, 2), o("del", 0, 0), {K: "flush"}, {K: "close"}, {K: "open"}, o("set", 0, 3), {K: "flush"}}},
 		{"fixed-empty", []Op{{K: "open"}, {K: "flush"}, {K: "close"}, {K: "open"}, {K: "crash", C: "idle"}, {K: "open"}, {K: "close"}, {K: "close"}, {K: "open"}}},
 	}
+}
+
+// cleanupFaultKinds: what can go wrong in (or be combined with) the flush / close that runs the
+// amortised cleanup. genCleanupFault builds one dense history per kind.
+var cleanupFaultKinds = []string{"", "wm", "wmsync", "wmsyncf", "rotate", "rotatef", "unlink:0", "unlink:1", "unlink:2",
+	"unlinkf:0", "unlinkf:1", "unlinkf:2", "fsync", "wmsync+wmsyncf", "close:", "close:rotatef", "close:unlinkf:1", "crash"}
+
+// genCleanupFault: a few logs (an older process lifetime, failed appends, a pinned far-away height),
+// then 255 flushed prunes executed quietly (outcomes only), then the flush / close that runs the
+// cleanup with the given failure — checked at every durable state, with every subset of unlinked
+// logs and every undurable watermark coming back — and a continuation (retry, crash, restart).
+func genCleanupFault(g *lib.RNG, kind string) []Op {
+	s := &genState{g: g, faults: true, cur: uint64(lib.Pick(g, []int{1, 1, 3, 40}))}
+	s.open()
+	if g.Intn(3) == 0 {
+		s.set(s.cur + 5000) // keeps its log referenced for ever
+		s.emit(Op{K: "flush"})
+	}
+	if g.Bool() {
+		s.set(s.cur)
+		s.emit(Op{K: "close"})
+		s.emit(Op{K: "open"})
+	}
+	for i := g.Intn(4); i > 0; i-- {
+		// a failed append closes the writer: the retry goes to a new log
+		s.set(s.cur)
+		s.emit(Op{K: "flush", F: "fsync"})
+		s.emit(Op{K: "flush"})
+	}
+	lag := uint64(lib.Pick(g, []int{0, 0, 1, 2}))
+	for i := 0; i < cleanupInterval-1; i++ {
+		for k := g.Intn(3); k > 0; k-- {
+			s.id++
+			s.emit(Op{K: "set", H: s.cur, E: s.id, Q: true})
+		}
+		s.cur++
+		s.emit(Op{K: "del", H: s.cur - 1 - min(lag, s.cur-1), Q: true})
+		s.emit(Op{K: "flush", Q: true})
+		if i%97 == 50 && g.Bool() {
+			s.emit(Op{K: "flush", F: "fsync", Q: false}) // nothing pending: no effect; keeps the family honest about empty flushes
+		}
+	}
+	// the 256th prune, not quiet
+	for k := g.Intn(3); k > 0; k-- {
+		s.set(s.cur)
+	}
+	s.cur++
+	s.emit(Op{K: "del", H: s.cur - 1 - min(lag, s.cur-1)})
+	op, f := "flush", kind
+	if strings.HasPrefix(kind, "close:") {
+		op, f = "close", strings.TrimPrefix(kind, "close:")
+	}
+	retry := func(ft string) {
+		s.set(s.cur)
+		s.cur++
+		s.emit(Op{K: "del", H: s.cur - 1})
+		s.emit(Op{K: "flush", F: ft})
+	}
+	switch kind {
+	case "crash":
+		s.emit(Op{K: "crash", C: lib.Pick(g, []string{"flush", "flush", "close"}), F: lib.Pick(g, []string{"", "", "wm"}), I: 5 + g.Intn(8), M: g.Uint64(), A: g.Intn(3), T: s.tail()})
+		s.emit(Op{K: "open"})
+	case "wmsync+wmsyncf":
+		// two undurable renames in a row: three watermark values may be on disk after a crash
+		s.emit(Op{K: "flush", F: "wmsync"})
+		retry("wmsyncf")
+		if g.Bool() {
+			s.emit(Op{K: "crash", C: "idle", M: g.Uint64(), A: 1 + g.Intn(2)})
+			s.emit(Op{K: "open"})
+		}
+	default:
+		s.emit(Op{K: op, F: f})
+		if op == "close" {
+			s.emit(Op{K: "open"})
+		}
+	}
+	// continuation
+	for i := g.Range(1, 4); i > 0; i-- {
+		switch g.Intn(5) {
+		case 0:
+			s.emit(Op{K: "crash", C: lib.Pick(g, []string{"idle", "idle", "flush"}), I: g.Intn(16), M: g.Uint64(), A: g.Intn(3), T: s.tail()})
+			s.emit(Op{K: "open"})
+		case 1:
+			s.emit(Op{K: "close"})
+			s.emit(Op{K: "open"})
+		default:
+			retry(lib.Pick(g, []string{"", "", "", "unlinkf:0", "rotatef", "wmsyncf"}))
+		}
+	}
+	return s.ops
 }
